@@ -80,6 +80,30 @@ def grid_with(cells, meta=None, cols=('a', 'b')):
     return g
 
 
+def sparse_laws(cat):
+    """a cell that is absent (null) on one side and populated on the other: unequal, in BOTH directions"""
+    import hszinc
+    out, n = [], 0
+    for i, (ka, a) in enumerate(cat):
+        if a is None:
+            continue
+        ga, gb = hszinc.Grid(version='3.0'), hszinc.Grid(version='3.0')
+        for g in (ga, gb):
+            g.column['x'] = {}
+            g.column['y'] = {}
+        ga.append({'x': 1.0})
+        gb.append({'x': 1.0, 'y': a})
+        n += 2
+        try:
+            r1, r2 = (ga == gb), (gb == ga)
+        except Exception as e:
+            out.append(('sparse', i, i, 'absent cell vs %r raised %r' % (a, e)))
+            continue
+        if r1 or r2 or r1 != r2:
+            out.append(('sparse', i, i, 'row {x} vs row {x, y=%r}: g1 == g2 is %s, g2 == g1 is %s' % (a, r1, r2)))
+    return out, n
+
+
 def grid_laws(cat):
     out = []
     n = 0
@@ -146,6 +170,9 @@ def bounded(tier, seed):
     for msg in singleton_laws():
         failures.append({'id': 'C19/singleton', 'what': msg, 'input': {'kind': 'singleton'}})
     gl, n = grid_laws(cat)
+    sl, n2 = sparse_laws(cat)
+    gl = gl + sl
+    n += n2
     cases += n
     for kind, i, j, msg in gl:
         failures.append({'id': 'C19/grid/%s/%d/%d' % (kind, i, j), 'what': msg, 'input': {'kind': 'grid', 'i': i, 'j': j}})
@@ -163,6 +190,7 @@ def replay(inp):
         return {'reproduced': bool(r), 'detail': r}
     if k == 'grid':
         gl, _ = grid_laws(cat)
+        gl = gl + sparse_laws(cat)[0]
         r = [m for kind, i, j, m in gl if i == inp['i'] and j == inp['j']] or [m for kind, i, j, m in gl][:3]
         return {'reproduced': bool(r), 'detail': r[:3]}
     # witnesses of refuted obligations name kinds only: replay the whole catalogue restricted to those kinds
@@ -174,5 +202,6 @@ def replay(inp):
             fails += laws_pair(i, j, cat)
     if k in ('cells', 'grids'):
         gl, _ = grid_laws(cat)
+        gl = gl + sparse_laws(cat)[0]
         fails += [m for _, _, _, m in gl]
     return {'reproduced': bool(fails), 'detail': fails[:5]}
